@@ -580,4 +580,82 @@ def appendFile2 (ri : IS → Out LoopRes) (cm ws : Bool) (iters maxErr total fue
   | .overflow i k => .overflow i k
   | .outOfFuel => .outOfFuel
 
+/-! ### STEPfile::ReadInstance — the per-instance reader of pass 2
+
+`lookup` (on the stream after `in >> fileid`): 0 = no instance with this id was created in pass 1, 1 = it is not in state
+`newSE` (a duplicate id in an exchange file), anything else = the instance to read.  `rd` is everything from the start of
+the record (`recStart = in.tellg()`) up to and including the `ReadTokenSeparator` that follows `obj->STEPread`: the optional
+`!`, the keyword, `STEPread` itself (`rdKw` below is that composition; an external mapping goes to `STEPread` at once).
+Its `sev`: 0 = a value was mis-read (`sev <= SEVERITY_WARNING`), 2 = a user-defined entity was skipped (`return ENTITY_NULL`),
+anything else = read.  After a mis-read the end of the record is found from its start, the way pass 1 found it
+(`in.clear(); in.seekg( recStart ); SkipInstance`).  Result `sev`: 0 = `ENTITY_NULL` (counted in `_entsInvalid`), 1 = an
+object is returned — `ReadData2` then counts it as valid whatever was reported while reading it, because
+`AppendEntityErrorMsg` has cleared the object's error by then (its errors are counted in `_errorCount` only). -/
+
+def readInstanceSkel (lookup : IS → Nat) (rd rc tok skip : IS → Out LoopRes) (s : IS) : Out LoopRes :=
+  match rc s with
+  | .ok r0 =>
+    if lookup r0.s.extractInt < 2 then
+      match skip r0.s.extractInt with
+      | .ok r => .ok ⟨r.s, 0, 0, r0.steps + 1 + r.steps⟩
+      | .overflow i k => .overflow i k
+      | .outOfFuel => .outOfFuel
+    else
+      match tok r0.s.extractInt with
+      | .ok r1 =>
+        if (r1.s.get).2 ≠ some chEq then
+          match skip (r1.s.get).1 with
+          | .ok r => .ok ⟨r.s, 0, 0, r0.steps + 1 + r1.steps + 1 + r.steps⟩
+          | .overflow i k => .overflow i k
+          | .outOfFuel => .outOfFuel
+        else
+          match tok (r1.s.get).1 with
+          | .ok r2 =>
+            match rd r2.s with
+            | .ok r3 =>
+              if r3.sev = 2 then .ok ⟨r3.s, 0, 0, r0.steps + 1 + r1.steps + 1 + r2.steps + r3.steps⟩
+              else if r3.sev = 0 && r2.s.good then
+                match skip { r2.s with skipws := r3.s.skipws } with
+                | .ok r => .ok ⟨r.s, 1, 0, r0.steps + 1 + r1.steps + 1 + r2.steps + r3.steps + 1 + r.steps⟩
+                | .overflow i k => .overflow i k
+                | .outOfFuel => .outOfFuel
+              else if (r3.s.peek).2 = some chSemi then
+                .ok ⟨((r3.s.peek).1.extract).1, 1, 0, r0.steps + 1 + r1.steps + 1 + r2.steps + r3.steps + 1⟩
+              else
+                .ok ⟨(r3.s.peek).1, 1, 0, r0.steps + 1 + r1.steps + 1 + r2.steps + r3.steps + 1⟩
+            | .overflow i k => .overflow i k
+            | .outOfFuel => .outOfFuel
+          | .overflow i k => .overflow i k
+          | .outOfFuel => .outOfFuel
+      | .overflow i k => .overflow i k
+      | .outOfFuel => .outOfFuel
+  | .overflow i k => .overflow i k
+  | .outOfFuel => .outOfFuel
+
+/-- the keyword form of `rd`: `c = in.peek()` (not `(`), `ReadTokenSeparator`, `!` (user-defined: the record is skipped),
+`ReadStdKeyword`, `ReadTokenSeparator`, `obj->STEPread` (`stepread`), `ReadTokenSeparator` -/
+def rdKw (stepread tok skip : IS → Out LoopRes) (s : IS) : Out LoopRes :=
+  match tok (s.peek).1 with
+  | .ok r0 =>
+    match tok (readStdKeyword (if (r0.s.peek).2 = some chBang then ((r0.s.peek).1.get).1 else (r0.s.peek).1)).1 with
+    | .ok r1 =>
+      if (r0.s.peek).2 = some chBang then
+        match skip r1.s with
+        | .ok r => .ok ⟨r.s, 2, 0, r0.steps + 1 + r1.steps + r.steps⟩
+        | .overflow i k => .overflow i k
+        | .outOfFuel => .outOfFuel
+      else
+        match stepread r1.s with
+        | .ok r2 =>
+          match tok r2.s with
+          | .ok r3 => .ok ⟨r3.s, r2.sev, 0, r0.steps + 1 + r1.steps + r2.steps + r3.steps⟩
+          | .overflow i k => .overflow i k
+          | .outOfFuel => .outOfFuel
+        | .overflow i k => .overflow i k
+        | .outOfFuel => .outOfFuel
+    | .overflow i k => .overflow i k
+    | .outOfFuel => .outOfFuel
+  | .overflow i k => .overflow i k
+  | .outOfFuel => .outOfFuel
+
 end StepModel.P21Safe
